@@ -184,7 +184,7 @@ func VerifC15_v1_run_fault() {
 	vAssert(vAnd(ok, v == ErrDividerBad), "C15: the reported error is ErrDividerBad")
 	g := vSumAssert("in flight at termination", e.G...)
 	vAssert(g == 0, "C15: the discipline terminates only after the in-flight items were released")
-	vAssert(vTickerStops() == 1, "C19: the interrupter is stopped")
+	vAssert(vTickersRunning() == 0, "C19: the interrupter ticker is not left running when main returns")
 }
 
 // C05 / C15, boundary instance: lists LONGER than the symbolic bound (sorting code tends to switch algorithm at a
